@@ -109,3 +109,19 @@ Definition hs_search (bx by_ bz : float) (ngx ngy ngz : Z) (seed : Z) (t eps mcv
 (* ---- (e) max_radius bookkeeping after adding particles with the given radii to a fresh simulation *)
 Definition radii_fold (rs : list float) : list float :=
   let '(m0, m1) := fold_left (add_radius_num FNum) rs (PrimFloat.zero, PrimFloat.zero) in [m0; m1].
+
+(* ---- (f) tree walks at binary64 on a dumped tree, followed by the shuffle *)
+From RV Require Import C13.TreeModel.
+Definition pending_tree (bx by_ bz : float) (ngx ngy ngz : Z) (seed : Z) (mr1 : float) (ps : list fp)
+           (roots : list (option (gcell float))) : list entry :=
+  fst (shuffle seed (search_tree FNum (kappa_lit FNum) (gb_periodic FNum bx by_ bz) ngx ngy ngz mr1 ps roots)).
+Definition pending_linetree (bx by_ bz : float) (ngx ngy ngz : Z) (dt : float) (seed : Z) (mr1 : float) (ps : list fp)
+           (roots : list (option (gcell float))) : list entry :=
+  fst (shuffle seed (search_linetree FNum (kappa_lit FNum) (gb_periodic FNum bx by_ bz) ngx ngy ngz mr1 dt ps roots)).
+
+(* ---- (g) C15's proved-sound checker on the same dumped forest in exact integer units: establishes the hypothesis
+   (gwf via C13_tree_wf_from_C15) under which the walk theorems speak about the tree walked in (f) *)
+From RV Require C15.Tree.
+Definition wf_forest_case (u : Z) (pos : list (Z * Z * Z)) (L N : nat) (roots : list ((Z * Z * Z) * C15.Tree.dcell)) : bool :=
+  C15.Tree.forest_b u (fun i => nth i pos (0, 0, 0)) L N roots.
+Definition bad_bool_cases (l : list bool) : list nat := bad_from (fun b : bool => b) 0 l.
